@@ -428,8 +428,16 @@ pub fn run_with(rng: &mut Rng, n: usize, rep: &mut Report, lines: &mut Option<Ve
                                 rep.fail(format!("C03 solend_withdraw paid the user {} tokens while the venue released {}", paid, released));
                             }
                             let exact_value: BigInt = if col > BigInt::from(0) { BigInt::from(exp_c) * &liq_w / (&col * &wad) } else { BigInt::from(0) };
+                            // (marginfi's own announcement for this collateral: where IT lies one unit above the exact value — the supplies are
+                            // truncated by 10^decimals before the division, known finding C20-F2 — the handler's one-unit tolerance lets a venue
+                            // that overpays by two units through; that case is named as such, anything beyond it is not)
+                            let announced_over: Option<i128> = r0.collateral_to_liquidity(exp_c.max(0) as u64).ok().map(|a| a as i128)
+                                .filter(|a| BigInt::from(*a) > exact_value && (paid - *a).abs() <= 1);
                             if BigInt::from(paid) > &exact_value + 1 {
-                                rep.fail(format!("C03 solend_withdraw paid {} tokens for {} collateral whose exact value is {}", paid, exp_c, exact_value));
+                                match announced_over {
+                                    Some(a) => rep.fail(format!("C03 solend_withdraw accepted a venue paying {} tokens for {} collateral whose exact value is {}: marginfi's own conversion announces {} (conversion-announces-above-exact: denominator truncation) and tolerates one unit more", paid, exp_c, exact_value, a)),
+                                    None => rep.fail(format!("C03 solend_withdraw paid {} tokens for {} collateral whose exact value is {}", paid, exp_c, exact_value)),
+                                }
                             }
                             // C20: … and at most the exact value of the collateral DEBITED FROM THE POSITION
                             {
@@ -437,7 +445,10 @@ pub fn run_with(rng: &mut Rng, n: usize, rep: &mut Report, lines: &mut Option<Ve
                                 let v: BigInt = if col > BigInt::from(0) { &debited * &liq_w / (&col * &wad) } else { BigInt::from(0) };
                                 if BigInt::from(paid) > &v + 1 {
                                     for tag in ["C20", "C03"] {
-                                        rep.fail(format!("{} solend_withdraw (all = {}) paid {} tokens while the position was debited {} collateral whose exact value is {}: the conversion overstates what the position is worth", tag, all, paid, debited, v));
+                                        match announced_over {
+                                            Some(a) if debited == BigInt::from(exp_c) => rep.fail(format!("{} solend_withdraw (all = {}) accepted a venue paying {} tokens while the position was debited {} collateral whose exact value is {}: marginfi's own conversion announces {} (conversion-announces-above-exact: denominator truncation) and tolerates one unit more", tag, all, paid, debited, v, a)),
+                                            _ => rep.fail(format!("{} solend_withdraw (all = {}) paid {} tokens while the position was debited {} collateral whose exact value is {}: the conversion overstates what the position is worth", tag, all, paid, debited, v)),
+                                        }
                                     }
                                 }
                             }
